@@ -21,7 +21,7 @@ def main(tier: str, seed: int) -> int:
     vmcheck.mc_family(rep, 'ctl', depth)
     if tier != 'quick':
         vmcheck.mc_family(rep, 'cache', 2)
-    n = 2500 if tier == 'quick' else 40000
+    n = 5000 if tier == 'quick' else 40000
     base = seed * 1_000_003
     batch = 10000
     for off in range(0, n, batch):
@@ -33,6 +33,10 @@ def main(tier: str, seed: int) -> int:
                         'events': len(t['ev']), 'first_events': [{k: e[k] for k in ('k', 'op', 'd', 'pc', 'keep', 'exc')}
                                                                  for e in t['ev'][:6]]})
         vmcheck.check_traces(rep, traces, 'full-opcode generator')
+    m = 500 if tier == 'quick' else 5000
+    for gen in ('vf.gen.runs:make_cachey', 'vf.gen.runs:make_hungry', 'vf.gen.runs:make_auth_adv', 'vf.gen.runs:make_forked'):
+        traces = vmcheck.record([(gen, base + 10 ** 6 + i, {}) for i in range(m)])
+        vmcheck.check_traces(rep, traces, gen.split(':')[1])
     return rep.finish()
 
 
